@@ -4,12 +4,16 @@ Parts of the tie: (0) source scan for process-wide state; (1) random programs un
 nested), two of them with update_indices() called in the construction pool; (2) concurrent instances; (3) index level
 (gen/props/c20_index.py: CRelNoIndex protocol vs Index/NoIndexPools.v, Index/NoIndexLife.v); (4) gen/c20_pools.py: indices that
 exist BEFORE run() (initial values / update_indices()) built in another pool, relations of hundreds of rows read with no bound
-column, vs the python least-model oracle gen/c20_spec.py and the life model Index/NoIndexLife.v.  corpus/C20.jsonl runs first."""
+column, vs the python least-model oracle gen/c20_spec.py and the life model Index/NoIndexLife.v; (5) gen/c20_contention.py: BIG
+ascent_par! programs (lattice and plain relations, 10^4-10^5 keys each derived several times in one iteration) constructed under one
+pool (1..16 threads, nested, or the main thread with a global pool of 1 / 2 / default threads) and run - also in stages, and twice -
+under another, vs the python specification of gen/par_contention.py (one row per key with the least upper bound; one row per
+tuple); the key mutex of the lattice head update as an explicit requirement: Engine/ParLatLocks*.v.  corpus/C20.jsonl runs first."""
 import json
 import os
 import re
 
-from .. import c20_pools, c20_spec, dl, engine_tie, gen_dl, lib, prog
+from .. import c20_contention, c20_pools, c20_spec, dl, engine_tie, gen_dl, lib, prog
 
 PROP = "C20"
 PROP_FILE = "Props/C20.v"
@@ -108,6 +112,10 @@ def replay_case(path):
         pb = c20_pools.replay(cs)
         return dict(evaluations=pb["evaluations"], distinct_nontrivial=pb["distinct"], rule="replay of one prebuilt-index history (5 repetitions: the placement of rows on workers is up to rayon)",
                     samples=[], distribution=pb["kinds"], mismatches=pb["mismatches"])
+    if cs.get("family") == c20_contention.FAMILY:
+        pc = c20_contention.replay(cs)
+        return dict(evaluations=pc["evaluations"], distinct_nontrivial=pc["distinct"], rule="replay of one pool-contention configuration (12 repetitions, + 12 unperturbed: a concurrent schedule is not reproducible)",
+                    samples=[], distribution=pc["distribution"], mismatches=pc["mismatches"])
     if cs.get("family") == "pools" and cs.get("prog"):
         p = dict(cs["prog"], rels=[tuple(x) for x in cs["prog"]["rels"]])
         inp = {k: [tuple(t) for t in v] for k, v in cs["input"].items()}
@@ -204,6 +212,10 @@ def tie(tier, seed, replay):
     #     bound column: gen/c20_pools.py (corpus cases first)
     pb = c20_pools.run(tier, seed, corpus=[e for e in corpus_cases() if e.get("family") == "prebuilt"])
     mism = pb["mismatches"] + mism
+    # (5) big contended programs (lattice and plain relations) constructed under one pool and run under another: gen/c20_contention.py
+    #     (last: the real runs want the cores to themselves)
+    pcn = c20_contention.run(tier, seed, corpus=[e for e in corpus_cases() if e.get("family") == c20_contention.FAMILY])
+    mism = pcn["mismatches"] + mism
     distinct, kinds = set(), {}
     for jid, m in meta.items():
         r = m[0]
@@ -230,8 +242,14 @@ def tie(tier, seed, replay):
                                      what="%s configuration: relation %s differs from the instance run alone (snapshot %d)" % (m[1], bad[0], j)))
                     break
     kinds["prebuilt_index_histories"] = pb["kinds"]
-    return dict(evaluations=len(results) + len(distinct) + ix.get("evaluations", 0) + pb["evaluations"], distinct_nontrivial=len(distinct) + pb["distinct"],
-                rule="prebuilt indices: randomised ascent_par! programs around a relation of 150-700 rows that is dynamic (fed / linear / non-linear recursion) and read with no bound column "
+    kinds["pool_contention"] = pcn["distribution"]["by_kind"]
+    return dict(evaluations=len(results) + len(distinct) + ix.get("evaluations", 0) + pb["evaluations"] + pcn["evaluations"], distinct_nontrivial=len(distinct) + pb["distinct"] + pcn["distinct"],
+                rule="pool contention: five big ascent_par! programs (lattices of integers / Dual / Set / Product with one- and two-column keys, recursion through a lattice, plain relations with projections and a join; "
+                     "10^3-10^5 keys or tuples, each derived 3-48 times in one iteration) whose value is constructed under a pool of a threads (1..16), nested pools, or the main thread with a global pool of 1 / 2 / default "
+                     "threads, and run under another pool of b threads (1 -> many, many -> 1, a <> b, nested, the main thread, the same pools as control), also in two stages (a part of the rows run under one pool, then all "
+                     "rows under another) and twice; after every full run a lattice relation must hold one row per key with the least upper bound of the derivable values and a plain relation one row per derivable tuple "
+                     "(python specification gen/par_contention.spec); distinct = (input, configuration); "
+                     "prebuilt indices: randomised ascent_par! programs around a relation of 150-700 rows that is dynamic (fed / linear / non-linear recursion) and read with no bound column "
                      "(count, sum, min / max, wildcard negation, cross product, first clause of a later stratum), its rows given as INITIAL VALUES (indexed in Default::default()) or assigned and "
                      "indexed by update_indices(), in a pool of a threads or on the main thread, then run in a pool of b (a > b in most), run again in a pool of c; every relation must equal the least "
                      "model (python oracle gen/c20_spec.py) with every row once, and the count() must be what Index/NoIndexLife.v life AlwaysRebuild reads; "
@@ -241,7 +259,9 @@ def tie(tier, seed, replay):
                 trusted_base=["source scan for shared state (regular expressions over the .rs files)", "FRONT hook; generated crates",
                               "gen/c20_spec.py (python least-model evaluator, the oracle for inputs of hundreds of rows): compared with Engine/Sem.v strat_fix on the small random cases of every run",
                               "Index/NoIndexLife.v vs generated code: the history translation of gen/c20_pools.py (rows = ids, round-robin workers, one SCC visit of the big relation); the theorem covers every worker assignment and split into rounds",
+                              "gen/par_contention.spec (python specification of the five big programs) and the two drivers harness/par_contention, harness/c20_contention holding the same ascent_par! blocks (compared on every run); a concurrent schedule is not reproducible: a violation in the pool-contention family is a sampled one (measured on seed C20_lattice_insertion_locks_sized_at_construction: every lattice case fails in every run)",
                               "RESIDUE: data races on the `static mut` timing statistics are UB in principle; they are not observable in results"],
                 assumptions=["rayon::current_thread_index() < number of threads of the pool the call runs in"],
                 extra=dict(cases_skipped_model_too_slow=nskipped, python_oracle_checked_against_coq_spec=noracle,
-                           prebuilt_index_family={k: v for k, v in pb.items() if k != "mismatches"}, index_level=ix.get("extra", {}).get("index_level", {k: v for k, v in ix.items() if k in ("evaluations", "distinct_nontrivial")})))
+                           prebuilt_index_family={k: v for k, v in pb.items() if k != "mismatches"},
+                           pool_contention_family={k: v for k, v in pcn.items() if k != "mismatches"}, index_level=ix.get("extra", {}).get("index_level", {k: v for k, v in ix.items() if k in ("evaluations", "distinct_nontrivial")})))
